@@ -325,6 +325,22 @@ pub fn str_to_dec(lit: &str) -> Result<(i128, isize), ParseDecimalError> {
     }
 }
 
+/// Access to the private SWAR helpers for external verification harnesses.
+/// Compiled only with `--cfg fpdec_verif`; not part of the API.
+#[cfg(fpdec_verif)]
+#[doc(hidden)]
+pub mod verif_hooks {
+    #[must_use]
+    pub fn chunk_contains_8_digits(chunk: u64) -> bool {
+        super::chunk_contains_8_digits(chunk)
+    }
+
+    #[must_use]
+    pub fn chunk_to_u64(chunk: u64) -> u64 {
+        super::chunk_to_u64(chunk)
+    }
+}
+
 #[cfg(test)]
 mod tests {
     use super::*;
